@@ -62,12 +62,12 @@ class C08(Prop):
     def model(self, case, reply, obs):
         if "exc" in reply:
             return {"exc": "raises"}
-        return {"motif_sizes": reply["motif_sizes"], "table": reply["table"]}
+        return {"motif_sizes": reply["motif_sizes"], "table": sorted(reply["table"])}   # a mapping: insertion order is incidental
 
     def project(self, case, obs):
         if "exc" in obs:
             return {"exc": "raises"}
-        return {"motif_sizes": obs["motif_sizes"], "table": [[k, v] for k, v, _ in obs["table"]]}
+        return {"motif_sizes": obs["motif_sizes"], "table": sorted([k, v] for k, v, _ in obs["table"])}
 
     def oracle(self, case, obs):
         if not case["contiguous"]:
